@@ -352,6 +352,9 @@ class Flatten2Reshape(RewriteRuleClassBase):
         # Verify if it is possible to apply rule.
         if np.count_nonzero(self._new_shape == -1) > 1:
             return check_result.fail("Impossible to compute new shape.")
+        if input_shape is not None and any(isinstance(dim, int) and dim == 0 for dim in input_shape):
+            # a 0 in the Reshape target means "copy the input dim", and -1 cannot be inferred for an empty tensor
+            return check_result.fail("Input has a zero-sized dimension.")
         return check_result
 
 
